@@ -40,6 +40,7 @@ type loopInfo struct {
 }
 
 type fnTrans struct {
+	renamed map[string]string // contract identifier -> current name of the local at the same declaration position
 	eng   *Engine
 	c     *smtCtx
 	fn    *ssa.Function
